@@ -14,6 +14,7 @@ case "$id" in
   *.r6) src="/tmp/mut6-$prop/SEEDED" ;;
   *.r7) src="/tmp/mut7-$prop/SEEDED" ;;
   *.r8) src="/tmp/mut8-$prop/SEEDED" ;;
+  *.r9) src="/tmp/mut9-$prop/SEEDED" ;;
   *)    src="/tmp/mut-$prop/SEEDED" ;;
 esac
 dst="seeded/$id"
